@@ -1,10 +1,17 @@
 (** C14 - the printers show every event and every byte exactly once, in order.
     PROVED (for every event list, in either mode, on which the printer does not fail, i.e. whose byte-buffer
     elements are primitive events - which the decoder guarantees): the hex column concatenated over all rows is
-    the concatenation of the bytes of the primitive events, in event order; what the row of a primitive shows.
-    NOT YET PROVED: the row/event bijection and that decoder output always has the required shape; decided by
-    the oracle (rows parsed from the real output: one row per structure/primitive/warning event in order, one row
-    per byte buffer, bit rows, indentation, value text) and the correspondence Model/Pretty.v vs implementation.
+    the concatenation of the bytes of the primitive events, in event order; what the row of a primitive shows;
+    the rows and the events correspond one to one: every row is the row of exactly one event, a bit row of the
+    attribute word above it, or the single row of a byte buffer (covering the list parent and all its elements,
+    holding all their bytes), and every structure, primitive and byte-buffer event is covered by exactly one row,
+    in event order, as is every warning (a warning raised inside a list before the row of that list is printed is
+    shown right after that row); the parent of a non-byte list has a row exactly when the list is empty.
+    NOT YET PROVED: that decoder output always has the shape on which the printer does not fail (the elements of a
+    byte buffer are primitive events); decided by the oracle (the real printer on decoder output of every generated
+    input: no exception, rows parsed from the real output: one row per structure/primitive/warning event in order,
+    one row per byte buffer, bit rows, indentation, value text) and the correspondence Model/Pretty.v vs
+    implementation.
     Statement file: theorem statements, [exact], Print Assumptions only. *)
 From Coq Require Import ZArith List String Bool.
 From TV Require Import Layout.Types Model.Monad Model.Ints Model.Pretty Proofs.PrettyProofs.
@@ -23,3 +30,34 @@ Theorem C14_row_of_a_primitive :
     RField (pname p) (List.length pa - 1) (row_name pa) (prim_hex p z) (value_text T d p z) [PPrim pa p z].
 Proof. reflexivity. Qed.
 Print Assumptions C14_row_of_a_primitive.
+
+(** every row is the row of one event, a bit row, or the one row of a byte buffer with all its bytes *)
+Theorem C14_every_row_is_an_event_row_a_bit_row_or_a_buffer_row :
+  forall T d evs, Forall (row_ok T d) (pretty T d evs).
+Proof. exact (fun T d evs => every_row_is_an_event_row_a_bit_row_or_a_buffer_row T d evs Top I). Qed.
+Print Assumptions C14_every_row_is_an_event_row_a_bit_row_or_a_buffer_row.
+
+(** every event except the parents of non-byte lists is covered by exactly one row, in event order
+    (f selects any class of non-warning events, e.g. one particular event) ... *)
+Theorem C14_every_structure_and_primitive_event_has_exactly_one_row :
+  forall T d (f : pev -> bool) evs, (forall e, is_warn e = true -> f e = false) -> ignores_list_parents f ->
+    ~ In RCrashRow (pretty T d evs) ->
+    filter f (List.concat (map row_cover (pretty T d evs))) = filter f evs.
+Proof. exact (fun T d f evs Hf Hl NC => rows_cover_events_once T d f (or_introl Hf) Hl evs Top (conj I I) NC). Qed.
+Print Assumptions C14_every_structure_and_primitive_event_has_exactly_one_row.
+
+(** ... and so is every warning *)
+Theorem C14_every_warning_has_exactly_one_row :
+  forall T d evs, ~ In RCrashRow (pretty T d evs) ->
+    filter is_warn (List.concat (map row_cover (pretty T d evs))) = filter is_warn evs.
+Proof.
+  exact (fun T d evs NC => rows_cover_events_once T d is_warn (or_intror (fun e H => H)) (fun _ _ => eq_refl) evs Top (conj I I) NC).
+Qed.
+Print Assumptions C14_every_warning_has_exactly_one_row.
+
+(** the parent of an empty non-byte list has its row *)
+Theorem C14_empty_list_is_shown :
+  forall T d pa en e r, is_warn e = false -> is_child pa (pev_path e) = false ->
+    pretty T d (PList pa en false :: e :: r) = plain_row T d (PList pa en false) :: full_rows T d e ++ pretty T d r.
+Proof. exact empty_list_is_shown. Qed.
+Print Assumptions C14_empty_list_is_shown.
